@@ -66,6 +66,46 @@ def holderOp (args : List String) : Option String :=
     some (fB h.observed.isSome ++ " " ++ fB h.binner.isSome ++ " " ++ fList fF (b.map TBin.c) ++ " " ++
       fList fF (b.map TBin.w) ++ " " ++ fList fF ((h.binModel native).getD []) ++ " " ++ fOpt fF (h.chisq native))
 
-def ops : List Op := [("c17.load", loadOp), ("c17.holder", holderOp)]
+/-- `[Observation]` of a program run: `0` absent, `1 kind rows` a file (as for `c17.load`), `2` self -/
+def obsDeclArg : P (Option (ObsDecl Float)) := do
+  let tag ← nat
+  if tag == 0 then pure (some ObsDecl.absent)
+  else if tag == 2 then pure (some ObsDecl.self)
+  else
+    let kind ← nat
+    let rows ← listOf (listOf flt)
+    if rows.length < 2 then pure none else
+      let orows := if kind == 2 then (mkORows rows).map fromTaurex else mkORows rows
+      pure (some (ObsDecl.given (load (kind != 0) orows)))
+
+/-- `c17.program bin obs inst native_c native_s`: `taurex -i par -o out` with `[Binning]` `bin` (0 absent, 1 native,
+    2 observed, 3 manual), `[Observation]` `obs`, the instrument result `inst` (`0` / `1 rows(wn, spectrum, noise, width)`)
+    → `observed-present binner-tag(0 native, 1 manual, 2 created from an observation) binner._wngrid binner._wngrid_width
+       binned obs.wavenumberGrid obs.spectrum obs.errorBar obs.binWidths`; `none` where the program stops -/
+def programOp (args : List String) : Option String :=
+  run (do
+    let b ← nat
+    let o ← obsDeclArg
+    let inst ← optOf (listOf (listOf flt))
+    let nc ← listOf flt
+    let ns ← listOf flt
+    pure (b, o, inst, nc, ns)) args >>= fun (b, o, inst, nc, ns) =>
+  o >>= fun o =>
+    if nc.length < 2 || (inst.map (fun rows => decide (rows.length < 2))).getD false then none else
+    let bd := if b == 0 then BinDecl.absent else if b == 1 then BinDecl.native else if b == 2 then BinDecl.observed
+      else BinDecl.manual
+    (Program.run bd o (inst.map mkORows)) >>= fun p =>
+    let native := mkRows nc ns
+    let (tag, bins) : Nat × List (TBin Float) := match p.binner with
+      | ProgBinner.native => (0, [])
+      | ProgBinner.manual => (1, [])
+      | ProgBinner.ofObs bs => (2, bs)
+    let ob (f : Obs Float → List Float) : List Float := (p.observed.map f).getD []
+    some (fB p.observed.isSome ++ " " ++ fN tag ++ " " ++ fList fF (bins.map TBin.c) ++ " " ++
+      fList fF (bins.map TBin.w) ++ " " ++ fList fF ((p.binModel native).getD []) ++ " " ++
+      fList fF (ob Obs.wavenumberGrid) ++ " " ++ fList fF (ob Obs.spectrum) ++ " " ++ fList fF (ob Obs.errorBar) ++ " " ++
+      fList fF (ob Obs.binWidths))
+
+def ops : List Op := [("c17.load", loadOp), ("c17.holder", holderOp), ("c17.program", programOp)]
 
 end Taurex.Ops.C17
